@@ -83,12 +83,12 @@ func BuildServeModel(p *Prog, ro *Roles) *ServeModel {
 			}
 			found := false
 			for _, cs := range callsIn(t, false) {
-				if c := staticTarget(cs.Common); c != nil && p.InRepo(c) && ec.zeroesOnEveryPath(c, "listener") {
+				if c := staticTarget(cs.Common); c != nil && p.InRepo(c) && ec.zeroesOnEveryPath(c, svcF.Listener) {
 					m.Reset = appendFn(m.Reset, c)
 					found = true
 				}
 			}
-			if !found && ec.zeroesOnEveryPath(t, "listener") {
+			if !found && ec.zeroesOnEveryPath(t, svcF.Listener) {
 				m.Reset = appendFn(m.Reset, t)
 			}
 		}
@@ -495,7 +495,7 @@ func (ec *effectCache) closesListener(in ssa.Instruction) bool {
 	if !ok {
 		return false
 	}
-	if c.Call.IsInvoke() && c.Call.Method.Name() == "Close" && strings.HasSuffix(strip(ec.T.T(c.Call.Value)), ".listener") {
+	if c.Call.IsInvoke() && c.Call.Method.Name() == "Close" && strings.HasSuffix(strip(ec.T.T(c.Call.Value)), "."+svcF.Listener) {
 		return true
 	}
 	t := staticTarget(&c.Call)
